@@ -19,7 +19,8 @@ FrameMal == {"len_zero", "len_three", "len_negative", "len_huge", "len_longer_th
              "unknown_type"}
 BodyMal == {"query_empty_body", "query_no_terminator", "parse_empty_body", "parse_no_terminator", "parse_huge_param_count",
             "bind_empty_body", "bind_counts_inconsistent", "bind_negative_counts", "describe_empty_body", "describe_bad_target",
-            "close_empty_body", "execute_empty_body"}
+            "close_empty_body", "execute_empty_body", "statement_name_invalid_utf8", "bind_param_length_negative",
+            "bind_param_length_huge"}
 OrderMal == {"stray_sync", "stray_copydata", "stray_copydone", "stray_copyfail", "stray_execute", "stray_bind",
              "stray_describe", "stray_flush", "password_message_now"}
 Mal(p) == CASE p = "pre_startup" -> PreStartup
